@@ -42,6 +42,7 @@ fn base(prop: &'static str) -> Cfg {
         guards: false,
         full_setters: true,
         handle_ops: true,
+        shared_waker: false,
         prop,
     }
 }
@@ -72,10 +73,13 @@ fn plans(prop: &'static str, sweep_prop: &str, tier: &str) -> Vec<Plan> {
         "C01" => {
             out.push(Plan { name: "c01-values", cfgs: starts(Cfg { handle_ops: false, ..base(prop) }), depth: if q { 4 } else { 5 } });
             out.push(Plan { name: "c01-with-handles-and-guards", cfgs: starts(Cfg { guards: true, max_subs: 2, ..base(prop) }), depth: if q { 3 } else { 4 } });
+            // all subscribers polled from one task (one waker for every poll)
+            out.push(Plan { name: "c01-same-task", cfgs: starts(Cfg { handle_ops: false, full_setters: false, max_subs: 3, shared_waker: true, ..base(prop) }), depth: if q { 4 } else { 5 } });
         }
         "C02" => {
             out.push(Plan { name: "c02-wakes", cfgs: starts(Cfg { full_setters: false, max_subs: 3, ..base(prop) }), depth: if q { 4 } else { 5 } });
             out.push(Plan { name: "c02-wakes-all-setters", cfgs: starts(Cfg { max_subs: 2, handle_ops: false, guards: true, ..base(prop) }), depth: if q { 3 } else { 4 } });
+            out.push(Plan { name: "c02-wakes-same-task", cfgs: starts(Cfg { full_setters: false, max_subs: 3, shared_waker: true, ..base(prop) }), depth: if q { 4 } else { 5 } });
         }
         "C03" => {
             out.push(Plan { name: "c03-handles", cfgs: starts(Cfg { full_setters: false, max_handles: 3, max_weaks: 2, ..base(prop) }), depth: if q { 4 } else { 5 } });
